@@ -715,7 +715,7 @@ func Run(cfg Config, sc Scenario) *reg.Result {
 	if cfg.Ctx != nil && cfg.Bound > 0 {
 		// job arguments understood by every scheduled part
 		cfg.Policy = cfg.Ctx.ArgInt("policy", cfg.Policy)
-		if cfg.Strategy == "db" && cfg.Ctx.Arg("cache", "") == "1" {
+		if cfg.Strategy == "db" && cfg.Ctx.Arg("cache", "") == "1" && os.Getenv("VERIF_NOCACHE") == "" {
 			cfg.Strategy = "dbc"
 		}
 	}
